@@ -102,7 +102,9 @@ class Dual:
         return self
 
     def __abs__(self):
-        return Dual(abs(self.v), sgn(self.v) * self.d)
+        # d|a| = (a/|a|) da  (== sign(a) da wherever the derivative exists)
+        a = abs(self.v)
+        return Dual(a, self.v / a * self.d)
 
     def sign(self):
         return Dual(sgn(self.v), 0.0)
